@@ -39,6 +39,15 @@ GARBAGE = [
 ]
 
 
+SYMBOL_ZOO = (
+    'Kosten 5\\% und A\\&B, \\$3, \\#4, a\\_b, x\\,y, \\{c\\} z\\\\\n'
+    '\\"a \\\'e \\`o \\^u \\~n \\ss{} \\o{} \\c c \\LaTeX{} \\TeX\\ und \\dots{} so.\n'
+    "``quote'' -- dash --- `s' a~b \\  c\\-d \\@. x\\/y\n"
+    '$a$ \\(b\\) \\emph{kurs} \\textbf{f}\\footnote{Fuss \\% n.} \\verb|x y| e\n'
+    '\\begin{itemize}\n\\item[] a \\item b\n\\end{itemize}\n'
+    'Ende \\S 3 \\P 4 \\&\n')
+
+
 # ---------------------------------------------------------------------
 #   evaluation of one plan (runs in a pool worker)
 # ---------------------------------------------------------------------
@@ -467,6 +476,30 @@ def run(seed, tier, budget_s):
                 plans.append(with_ranges(b, 0, [pr], nxt()))
                 sweep_ranges += 1
 
+    # ---- stage 3d: one- and two-character matches at EVERY offset of a text
+    #      made of control symbols, accent macros and other constructs whose
+    #      plain character stands for several LaTeX characters (the mapping
+    #      of a match onto such a character has code paths of its own)
+    symbol_cases = 0
+    for si, mode in enumerate(modes if not quick
+                              else [modes[seed % 5], modes[(seed + 2) % 5]]):
+        srng = core.run_rng(seed, PID, 'symbols', si)
+        b = gen_base(srng, mode, short=True)
+        b['files'][b['names'][0]] = {'text': SYMBOL_ZOO}
+        b['peer']['targets'] = []
+        b['_want_subs'] = True
+        r = evaluate(b)
+        if r['verdict'] != 'ok' or not r.get('subs'):
+            continue
+        text = r['subs'][0][0]
+        pairs = [[o, l] for o in range(len(text)) for l in (1, 2)
+                 if o + l <= len(text)]
+        if quick:
+            pairs = srng.sample(pairs, min(len(pairs), 260))
+        for pr in pairs:
+            plans.append(with_ranges(b, 0, [pr], nxt()))
+            symbol_cases += 1
+
     # ---- stage 3a: in-range matches that cross a flow boundary (start in the
     #      main text, end in footnote/caption text that was moved to the end:
     #      the end then maps to an EARLIER LaTeX position than the start)
@@ -620,6 +653,7 @@ def run(seed, tier, budget_s):
     extra = {'per_base_single_fault_space_sizes': sweep_sizes[:12],
              'complete_single_fault_sweeps': complete_sweeps,
              'range_sweep_cases': sweep_ranges,
+             'symbol_offset_cases': symbol_cases,
              'part_boundary_offset_cases': boundary_cases,
              'cross_flow_range_cases': cross_flow,
              'nested_multi_line_pairs': nested_pairs,
